@@ -31,6 +31,21 @@ class Obj(dict):
     """struct value"""
 
 
+class DictIt:
+    """iterator into an associative container model: (container, key) or end"""
+    def __init__(self, d, key=None, end=False):
+        self.d, self.key, self.end = d, key, end
+
+    def __eq__(self, o):
+        return isinstance(o, DictIt) and self.d is o.d and self.end == o.end and (self.end or self.key == o.key)
+
+    def __ne__(self, o):
+        return not self.__eq__(o)
+
+    def __hash__(self):
+        return hash((id(self.d), self.key, self.end))
+
+
 class Interp:
     def __init__(self, prog, models=None, max_steps=20000):
         self.p = prog
@@ -234,6 +249,8 @@ class Interp:
             raise Unsupported('unbound variable ' + e['name'])
         if k == 'member':
             b = self.expr(e['base'], env)
+            if isinstance(b, DictIt) and not b.end and e['name'] in ('first', 'second'):
+                return b.key if e['name'] == 'first' else (b.d[b.key] if isinstance(b.d, dict) else None)
             if isinstance(b, Obj):
                 if e['name'] in b:
                     return b[e['name']]
@@ -255,6 +272,12 @@ class Interp:
                 return -self.expr(e['e'], env)
             if op == '*':
                 return self.expr(e['e'], env)
+            if op == '&':
+                # address of an object or of a container element: the object itself (structs have reference semantics here)
+                v = self.expr(e['e'], env)
+                if isinstance(v, (Obj, list, dict)):
+                    return v
+                raise Unsupported('address of a scalar')
             if op in ('++', '--'):
                 cur = self.expr(e['e'], env)
                 new = (cur or 0) + (1 if op == '++' else -1)
@@ -339,6 +362,10 @@ class Interp:
                 return self.models[name](self, e, env)
             if k == 'call' and (SX.callee(e) or '').startswith(('std::move', 'std::forward')) and len(SX.real_args(e)) == 1:
                 return self.expr(SX.real_args(e)[0], env)
+            if k == 'call' and (SX.callee(e) or '').startswith('std::numeric_limits<') and name in ('max', 'min') and not SX.real_args(e):
+                t = SX.callee(e)
+                bits = 63 if ('long' in t or 'int64' in t) else 31
+                return (2 ** bits - 1) if name == 'max' else -(2 ** bits)
             if k == 'mcall' and name in ('operator bool', 'has_value') and not SX.real_args(e):
                 return self.expr(e['obj'], env) is not None
             if k == 'mcall':
@@ -397,6 +424,8 @@ class Interp:
                     return ''
                 if e['type'].startswith('std::vector'):
                     return []
+                if 'unordered_set<' in e['type'] or e['type'].startswith('std::set<'):
+                    return set()
                 if 'map<' in e['type']:
                     return {}
             raise Unsupported('construct ' + e['type'])
@@ -456,7 +485,7 @@ class Interp:
                 return o[st:st + a[1]] if len(a) > 1 else o[st:]
             if name in ('length',):
                 return len(o)
-        if isinstance(o, (list, str, dict)) and not isinstance(o, Obj):
+        if isinstance(o, (list, str, dict, set)) and not isinstance(o, Obj):
             if name == 'size':
                 return len(o)
             if name == 'empty':
@@ -481,7 +510,15 @@ class Interp:
                 o.insert(a[0][1], a[1])
                 return None
             if name in ('find', 'count') and isinstance(o, dict):
-                return (a[0] in o) if name == 'count' else ('it', a[0] in o)
+                return (a[0] in o) if name == 'count' else (DictIt(o, a[0]) if a[0] in o else DictIt(o, end=True))
+            if name in ('end', 'cend') and isinstance(o, dict):
+                return DictIt(o, end=True)
+            if name in ('find', 'count') and isinstance(o, set):
+                return (a[0] in o) if name == 'count' else (DictIt(o, a[0]) if a[0] in o else DictIt(o, end=True))
+            if name == 'insert' and isinstance(o, set) and len(a) == 1:
+                fresh = a[0] not in o
+                o.add(a[0])
+                return Obj(first=DictIt(o, a[0]), second=fresh)
             if name == 'clear':
                 if isinstance(o, (list, dict)):
                     o.clear()
